@@ -257,6 +257,16 @@ pub fn bitreader_script<R: BufRead>(reader: R, ops: &[BitOp]) -> Vec<Result<u64,
     out
 }
 
+/// `LosslessDecoder::read_huffman_code(alphabet_size)` on the bits of `bytes`, followed by up to
+/// `n` symbol reads with the returned tree from the same position.
+pub fn read_code_then_symbols(
+    bytes: &[u8],
+    alphabet_size: u16,
+    n: usize,
+) -> Result<(bool, Vec<u16>, Option<DecodingError>), DecodingError> {
+    LosslessDecoder::verif_read_code(std::io::Cursor::new(bytes), alphabet_size, n)
+}
+
 /// `LosslessDecoder::decode_frame` over any `BufRead`.
 pub fn vp8l_decode<R: BufRead>(
     reader: R,
